@@ -15,10 +15,28 @@ func init() { register("C03", c03) }
 
 // idCounterOps lists atomic operations on the atomic.Uint64 id counter of PoolManager.
 func idCounterOps(c *core.Ctx) []an.AtomicOp {
-	var out []an.AtomicOp
+	var all []an.AtomicOp
 	for _, op := range an.AtomicOps(c.AllFuncs) {
 		fa, ok := op.Call.Common().Args[0].(*ssa.FieldAddr)
 		if ok && nestedIn(c, fa.X.Type(), workersPkg, "PoolManager") {
+			all = append(all, op)
+		}
+	}
+	// by role: the id counter is the atomic the allocator (the function handing out `(id, error)`) works on; other
+	// atomics of the manager (statistics, in-flight figures) are not ids
+	inAlloc := map[*types.Var]bool{}
+	for _, op := range all {
+		res := op.Fn.Signature.Results()
+		if res.Len() == 2 && types.Identical(res.At(1).Type(), types.Universe.Lookup("error").Type()) && op.Fn.Signature.Params().Len() == 0 {
+			inAlloc[op.Field] = true
+		}
+	}
+	if len(inAlloc) == 0 {
+		return all
+	}
+	var out []an.AtomicOp
+	for _, op := range all {
+		if inAlloc[op.Field] {
 			out = append(out, op)
 		}
 	}
